@@ -465,6 +465,9 @@ pub fn get_navigation_mathml_id() -> Result<(String, usize)> {
     return MATHML_INSTANCE.with(|package_instance| {
         let package_instance = package_instance.borrow();
         let mathml = get_element(&package_instance);
+        if mathml.attribute_value("id").is_none() {
+            bail!("get_navigation_mathml_id: no MathML has been set (call set_mathml first)");
+        }
         return Ok(NAVIGATION_STATE.with(|nav_stack| {
             return nav_stack.borrow().get_navigation_mathml_id(mathml);
         }));
